@@ -63,17 +63,29 @@ type runResult struct {
 	LoopContinued int  // Write calls issued after a Write had returned an error
 }
 
+// parseVals instantiates a script for a target.  Parsed values are cached per
+// target (they are immutable and writers must not retain them).
 func parseVals(t *target, script []string) ([]zed.Value, error) {
-	zctx := zed.NewContext()
+	t.mu.Lock()
+	defer t.mu.Unlock()
+	if t.parsed == nil {
+		t.parsed = map[string]zed.Value{}
+		t.zctx = zed.NewContext()
+	}
 	var vals []zed.Value
 	for _, class := range script {
-		text := t.vals[class]
-		if text == "" {
-			return nil, fmt.Errorf("class %s unsupported", class)
-		}
-		v, err := zson.ParseValue(zctx, text)
-		if err != nil {
-			return nil, fmt.Errorf("parse %.40s: %w", text, err)
+		v, ok := t.parsed[class]
+		if !ok {
+			text := t.vals[class]
+			if text == "" {
+				return nil, fmt.Errorf("class %s unsupported", class)
+			}
+			var err error
+			v, err = zson.ParseValue(t.zctx, text)
+			if err != nil {
+				return nil, fmt.Errorf("parse %.40s: %w", text, err)
+			}
+			t.parsed[class] = v
 		}
 		vals = append(vals, v)
 	}
@@ -108,7 +120,26 @@ func (s *shim) Write(v zed.Value) error {
 // execute drives the real writer the way the repository does: the values are
 // copied to it by one of the real copy loops (zio.Copy or zbuf.CopyPuller,
 // which must stop at the first error), then Close is called.
-func execute(t *target, script []string, k int, mode string, ref [][]byte) (res *runResult, err error) {
+func execute(t *target, script []string, k int, mode string, ref [][]byte) (*runResult, error) {
+	type out struct {
+		res *runResult
+		err error
+	}
+	ch := make(chan out, 1)
+	go func() {
+		res, err := execute1(t, script, k, mode, ref)
+		ch <- out{res, err}
+	}()
+	select {
+	case o := <-ch:
+		return o.res, o.err
+	case <-time.After(60 * time.Second):
+		// A writer that hangs is not this property's subject; give up on the case.
+		return nil, fmt.Errorf("writer %s did not return within 60s on script %v (k=%d %s)", t.Name, script, k, mode)
+	}
+}
+
+func execute1(t *target, script []string, k int, mode string, ref [][]byte) (res *runResult, err error) {
 	vals, err := parseVals(t, script)
 	if err != nil {
 		return nil, err
@@ -722,7 +753,7 @@ var mustScripts = [][]string{{"n", "o"}, {"o", "n"}, {"s", "n"}, {"n", "L"}}
 // pick selects the scripts of this tier: all short ones, mustScripts, and a
 // seeded sample of the longest.
 func pick(c *core.Ctx, all [][]string) [][]string {
-	full, sample := 1, 8
+	full, sample := 1, 4
 	if !c.Quick() {
 		full, sample = 2, 100
 	}
